@@ -69,6 +69,12 @@ def check_doc(spec, schema, text, transforms, ctx=None, expect_valid=False):
         if ctx is not None:
             for r in rules:
                 ctx.event("rule-exercised:" + r)
+    # the same text parsed without positions is the same document: where its tokens stand cannot make it valid or invalid
+    r_nl = VC.lib_validate(schema, text, no_location=True)
+    if r_nl[0] in ("ok", "errors") and r_nl[0] != v:
+        who = VC.attribution(schema, doc if v == "errors" else r_nl[1][0])[:3]
+        vios.append(("C06/verdict-changes/parsed-without-locations/%s" % "+".join(who),
+                     "with locations=%s without=%s errors=%r" % (v, r_nl[0], [str(e)[:100] for e in (errs or (r_nl[1][1] if r_nl[0] == "errors" else []))[:2]])))
     for kind, t2 in transforms:
         v2, doc2, errs2 = verdict(schema, t2)
         if v2 in ("syntax", "raise"):
